@@ -15,6 +15,7 @@ from nautilus.bounds import (UnitCube, Ellipsoid, UnitCubeEllipsoidMixture, Unio
 from nautilus.bounds.periodic import PhaseShift  # noqa: E402
 
 POINTSETS = ['clusters2', 'blob', 'elongated', 'banana', 'corner', 'three', 'faces']
+EXTRA_POINTSETS = ['onface', 'compact', 'many']      # targeted families (not in the generic rotation)
 
 
 def pointset(kind, n_dim, n, seed):
@@ -44,6 +45,21 @@ def pointset(kind, n_dim, n, seed):
     elif kind == 'faces':
         p = g.uniform(0, 1, (n, n_dim))
         p[:, 0] = 1 - np.abs(g.normal(0, 0.03, n))
+    elif kind == 'onface':
+        # uniform in most coordinates (those become cube dimensions of a mixture), some points EXACTLY on the face x_last = 0
+        p = g.uniform(0, 1, (n, n_dim))
+        p[:, 0] = np.clip(0.5 + 0.02 * g.normal(size=n), 0.3, 0.7)
+        p[: max(3, n // 10), -1] = 0.0
+        return np.ascontiguousarray(p)
+    elif kind == 'compact':
+        # a broad cluster next to an extremely compact one (volume ratio far below float epsilon)
+        k = n // 2
+        p = np.vstack([g.normal(0.35, 0.08, (n - k, n_dim)), 0.8 + 1e-9 * g.normal(size=(k, n_dim))])
+    elif kind == 'many':
+        # many well separated small clusters: unions with more than ten members
+        m = 14
+        cen = g.uniform(0.08, 0.92, (m, n_dim))
+        p = np.vstack([c + 0.004 * g.normal(size=(n // m + 1, n_dim)) for c in cen])[:n]
     else:
         raise ValueError(kind)
     # keep everything strictly inside the unit cube
@@ -82,13 +98,30 @@ def observe_union(u, unit):
 OPS = ['SplitT', 'SplitF', 'Trim', 'Sample', 'LogV']
 
 
+def _split_with_shrink(u, allow):
+    """split() plus an observation made in log space (integer volume units cannot resolve tiny ellipsoids):
+    the two new ellipsoids together are not larger than the one they replace."""
+    from scipy.special import logsumexp
+    pre = [(set(np.ascontiguousarray(x).tobytes() for x in pts), float(b.log_v))
+           for pts, b in zip(u.points_bounds, u.bounds)]
+    ret = bool(u.split(allow_overlap=allow))
+    ok = True
+    if ret and len(u.bounds) >= 2:
+        a = set(np.ascontiguousarray(x).tobytes() for x in u.points_bounds[-2])
+        b = set(np.ascontiguousarray(x).tobytes() for x in u.points_bounds[-1])
+        par = [lv for pts, lv in pre if pts == (a | b)]
+        if par:
+            ok = bool(logsumexp([float(u.bounds[-2].log_v), float(u.bounds[-1].log_v)]) <= par[0] + 1e-9)
+    return dict(name='Split', allow=bool(allow), ret=ret, shrinkOK=ok)
+
+
 def apply_op(u, op, unit):
     """Returns the event record (the union is modified in place)."""
     try:
         if op == 'SplitT':
-            return dict(name='Split', allow=True, ret=bool(u.split()))
+            return _split_with_shrink(u, True)
         if op == 'SplitF':
-            return dict(name='Split', allow=False, ret=bool(u.split(allow_overlap=False)))
+            return _split_with_shrink(u, False)
         if op == 'Trim':
             return dict(name='Trim', ret=bool(u.trim(threshold=5.0)))
         if op == 'TrimD':
@@ -419,3 +452,33 @@ def walk_object(spec):
             except Exception:
                 pass
     return dict(job=spec, log=log, edges=len(log))
+
+
+def many_members(job):
+    """A union split until it has more than ten members, then written and read back (member groups are named
+    bound_0 ... bound_12: name order is not index order)."""
+    n_dim, n, seed, cls_name, unit = job
+    pts = pointset('many', n_dim, n, seed)
+    idx = {p.tobytes(): i + 1 for i, p in enumerate(pts)}
+    cls = Ellipsoid if cls_name == 'Ellipsoid' else UnitCubeEllipsoidMixture
+    u = Union.compute(pts, n_points_min=n_dim + 2, bound_class=cls, unit=unit, rng=np.random.default_rng(seed))
+    v0 = u.bounds[0].log_v
+    log = []
+
+    def rec(event, node):
+        log.append(dict(event=event, state=project_union(u, idx, v0), obs=observe_union(u, unit), node=node, npts=len(pts)))
+    rec(dict(name='Restore'), '-')
+    k = 0
+    while k < 20:
+        ev = apply_op(u, 'SplitT', unit)
+        k += 1
+        if ev['name'] == 'Raise' or not ev.get('ret'):
+            rec(ev, 'split%d' % k) if ev['name'] != 'Raise' else log.append(dict(event=ev, state=log[-1]['state'], obs=log[-1]['obs'], node='split%d' % k, npts=len(pts)))
+            break
+        rec(ev, 'split%d' % k)
+    u.sample(500)
+    rec(dict(name='Restore'), 'sampled')
+    rt = roundtrip_check(u, pts)
+    rec(dict(name='RoundTrip', **rt), 'members=%d/RoundTrip' % len(u.bounds))
+    return dict(job=dict(cls='Union(%s) with %d members' % (cls_name, len(u.bounds)), kind='many', n_dim=n_dim, npm=n_dim + 2),
+                log=log, edges=len(log), members=len(u.bounds))
